@@ -31,16 +31,22 @@ structure Variants where
   handlerStatus : Variant
   /-- #22 services/discovery.go never passes routing_strategy / discovery to the registry (always strict) -/
   wiring : Variant
+  /-- (round 4) discovery strategy, refresh succeeded, fallback "all": the fallback is every healthy endpoint the
+      discovery service knows, not the healthy ones among the candidates the caller handed in (a provider route hands
+      in that provider's endpoints only).  Fixed (fixes/C11-discovery-fallback-candidates.patch): restricted to the candidates. -/
+  discoveryCandidates : Variant := .fixed
 deriving DecidableEq, Repr
 
 /-- THE switch: flip a field to `.fixed` when the corresponding fix patch is applied to the tree. -/
 def active : Variants :=
-  { discoveryReasons := .fixed, discoveryErrorFallback := .fixed, handlerStatus := .fixed, wiring := .fixed }
+  { discoveryReasons := .fixed, discoveryErrorFallback := .fixed, handlerStatus := .fixed, wiring := .fixed,
+    discoveryCandidates := .fixed }
 
 def allFixed : Variants :=
   { discoveryReasons := .fixed, discoveryErrorFallback := .fixed, handlerStatus := .fixed, wiring := .fixed }
 def allPinned : Variants :=
-  { discoveryReasons := .pinned, discoveryErrorFallback := .pinned, handlerStatus := .pinned, wiring := .pinned }
+  { discoveryReasons := .pinned, discoveryErrorFallback := .pinned, handlerStatus := .pinned, wiring := .pinned,
+    discoveryCandidates := .pinned }
 
 structure Decision where
   strategy : String
@@ -145,6 +151,19 @@ def route (vs : Variants) (typ fb : String) (refreshOnMiss : Bool) (outcome : Re
   else if n == strategyDiscovery then discovery vs fb refreshOnMiss outcome healthy modelEps
   else strict healthy modelEps
 
+/-- `restrictToCandidates`: what the strategy keeps of the list `GetHealthyEndpoints` returned after a refresh.
+    Pinned: all of it.  Fixed: the members of the caller's candidate list. -/
+def effOutcome (v : Variant) (outcome : Refresh) (candidates : List Ep) : Refresh :=
+  match v, outcome with
+  | .fixed, .ok updated => .ok (updated.filter (fun e => candidates.contains e))
+  | _, oc => oc
+
+/-- The decision table as the tree computes it: `route` on the refreshed list after `restrictToCandidates`.
+    (`healthy` is the candidate list the caller hands in — healthy endpoints the route allows.) -/
+def routeC (vs : Variants) (typ fb : String) (refreshOnMiss : Bool) (outcome : Refresh)
+    (healthy modelEps : List Ep) : Routed :=
+  route vs typ fb refreshOnMiss (effOutcome vs.discoveryCandidates outcome healthy) healthy modelEps
+
 /-- Does the call reach `discovery.RefreshEndpoints`? (only the discovery strategy, only on a miss, only if configured) -/
 def refreshes (typ : String) (refreshOnMiss : Bool) (healthy modelEps : List Ep) : Bool :=
   factoryName typ == strategyDiscovery && (routable healthy modelEps).isEmpty && refreshOnMiss
@@ -177,7 +196,7 @@ deriving DecidableEq, Repr, Inhabited
 def effectiveRoute (vs : Variants) (typ fb : String) (refreshOnMiss : Bool) (healthy modelEps : List Ep) : Routed :=
   match vs.wiring with
   | .pinned => strict healthy modelEps
-  | .fixed  => route vs typ fb refreshOnMiss (.ok healthy) healthy modelEps
+  | .fixed  => routeC vs typ fb refreshOnMiss (.ok healthy) healthy modelEps
 
 /-- `filterEndpointsByProfile` stage 3 + `proxyHandler` / `providerProxyHandler` + the engines'
     "no endpoints" error + `handleProxyError`. -/
